@@ -215,9 +215,18 @@ def solve_case(case, workdir, prop_id, want_trace=True):
             return r
         r['build_cmd'] += ' && goto-instrument %s' % ' '.join(ins)
         gb = gb2
-    cmd = ['cbmc', gb] + case.cbmc_flags()
+    # recursion/loop ids of functions that --drop-unused-functions removed are rejected by cbmc: drop them and retry
+    for _ in range(40):
+        cmd = ['cbmc', gb] + case.cbmc_flags()
+        rc, out, err, wall, rss, to = run(cmd, case.timeout, case.mem_gb, cwd=workdir)
+        r['wall_s'] += wall
+        m = re.search(r'invalid loop identifier (\S+)', out + err)
+        if m and m.group(1) in case.unwindset:
+            del case.unwindset[m.group(1)]
+            continue
+        break
+    r['wall_s'] -= wall
     r['cbmc_cmd'] = ' '.join(cmd)
-    rc, out, err, wall, rss, to = run(cmd, case.timeout, case.mem_gb, cwd=workdir)
     r['wall_s'] += wall
     r['solver_wall_s'] = wall
     r['max_rss_kb'] = rss
